@@ -19,6 +19,7 @@ type Encoder struct {
 }
 
 func (e *Encoder) processMessage(packet server.LoRaMessage) {
+	defer stage("encoder.done", packet.FrameContext.Device.DeviceEUI.String())
 	var buffer []byte
 	var err error
 
@@ -99,6 +100,7 @@ func (e *Encoder) processMessage(packet server.LoRaMessage) {
 		return
 	}
 
+	stage("encoder.handoff", packet.FrameContext.Device.DeviceEUI.String())
 	// Copy relevant data to the outgoing packet.
 	e.output <- server.GatewayPacket{
 		RawMessage: buffer,
